@@ -1,0 +1,12 @@
+//go:build verif
+
+package meta
+
+import (
+	"github.com/projecteru2/core/types"
+)
+
+// NewETCDWithClient builds an ETCD on a caller-supplied client (verification harness only).
+func NewETCDWithClient(cli ETCDClientV3, config types.EtcdConfig) *ETCD {
+	return &ETCD{cliv3: cli, config: config}
+}
